@@ -33,6 +33,29 @@ static int parse_link(const char *hex, int cal, KSI_HashChainLink **out) {
 	return res;
 }
 
+/* READMETA 1: before aggregating, everything a caller can read from the links' metadata is read (KSI_HashChainLink_getMetaData + the four
+ * field getters, and for chain objects KSI_AggregationHashChain_getIdentity): reading must not change what the sibling contributes to the hash */
+static int read_meta;
+static void read_links(KSI_LIST(KSI_HashChainLink) *links) {
+	size_t i;
+	for (i = 0; read_meta && i < KSI_HashChainLinkList_length(links); i++) {
+		KSI_HashChainLink *l = NULL; KSI_MetaDataElement *md = NULL; KSI_Utf8String *u = NULL; KSI_Integer *v = NULL;
+		KSI_HashChainLinkList_elementAt(links, i, &l);
+		if (l == NULL || KSI_HashChainLink_getMetaData(l, &md) != KSI_OK || md == NULL) continue;
+		/* the values stay owned by the metadata element (it caches them) */
+		KSI_MetaDataElement_getClientId(md, &u); u = NULL;
+		KSI_MetaDataElement_getMachineId(md, &u);
+		KSI_MetaDataElement_getSequenceNr(md, &v); v = NULL;
+		KSI_MetaDataElement_getRequestTimeInMicros(md, &v);
+	}
+}
+static void read_chain(KSI_AggregationHashChain *c) {
+	KSI_LIST(KSI_HashChainLink) *links = NULL; KSI_HashChainLinkIdentityList *idl = NULL;
+	if (!read_meta || c == NULL) return;
+	if (KSI_AggregationHashChain_getIdentity(c, &idl) == KSI_OK) KSI_HashChainLinkIdentityList_free(idl);
+	if (KSI_AggregationHashChain_getChain(c, &links) == KSI_OK) read_links(links);
+}
+
 static int parse_chain(const char *hex, KSI_AggregationHashChain **out) {
 	size_t n; unsigned char *b = hx_dec(hex, &n); KSI_AggregationHashChain *c = NULL; int res;
 	KSI_TLV *tlv = NULL;
@@ -68,6 +91,7 @@ static long long cal_time(KSI_LIST(KSI_HashChainLink) *links, unsigned long long
 
 int main(void) {
 	char *line = NULL; size_t cap = 0; char **tok = H_MALLOC(sizeof(char *) * MAXTOK);
+	if (getenv("VERIF_READMETA") != NULL) read_meta = 1;
 	if (KSI_CTX_new(&ctx) != KSI_OK) return 2;
 	while (getline(&line, &cap, stdin) > 0) {
 		int n, i, res;
@@ -75,7 +99,8 @@ int main(void) {
 		n = hx_split(line, tok, MAXTOK);
 		if (n == 0) continue;
 		if (fault_cmd(tok, n)) { fflush(stdout); continue; }
-		if (!strcmp(tok[0], "AGG")) {
+		if (!strcmp(tok[0], "READMETA") && n > 1) { read_meta = atoi(tok[1]); printf("M %d\n", read_meta);
+		} else if (!strcmp(tok[0], "AGG")) {
 			KSI_LIST(KSI_HashChainLink) *links = NULL; KSI_DataHash *in = NULL, *out = NULL; int lvl = -1;
 			size_t k; unsigned char *b = hx_dec(tok[3], &k);
 			res = KSI_DataHash_fromImprint(ctx, b, k, &in); free(b);
@@ -87,6 +112,7 @@ int main(void) {
 			}
 			if (res != KSI_OK) { printf("A parse%d -1 -\n", res); }
 			else {
+				read_links(links);
 				res = KSI_HashChain_aggregate(ctx, links, in, atoi(tok[2]), atoi(tok[1]), &lvl, &out);
 				printf("A %d %d ", res, res == KSI_OK ? lvl : -1); if (res == KSI_OK) print_hash(out); else printf("-"); printf("\n");
 			}
@@ -98,6 +124,7 @@ int main(void) {
 			if (res != KSI_OK) printf(" parse%d", res);
 			else for (i = 2; i < n; i++) {
 				KSI_DataHash *out = NULL; int lvl = -1;
+				if (i == 2 || i == 3) read_chain(c);          /* before the first aggregation and again between the first two */
 				res = KSI_AggregationHashChain_aggregate(c, atoi(tok[i]), &lvl, &out);
 				printf(" %d:%d:", res, res == KSI_OK ? lvl : -1); if (res == KSI_OK) print_hash(out); else printf("-");
 				KSI_DataHash_free(out);
